@@ -45,6 +45,9 @@ def run(rec, hub, tier, seed, shard, nshards, budget):
         if k % 5 == 2:
             rec.set_case(driver="c17.two", seed=seed, tier=tier, shard=shard, nshards=nshards, idx=i)
             dsm.two_objects_case(rec, hub, case_nprng(seed, "c17.two", 0, i), tier, dsm.M17, "C17")
+        if k % 6 == 1:
+            rec.set_case(driver="c17.siblings", seed=seed, tier=tier, shard=shard, nshards=nshards, idx=i)
+            dsm.sibling_grids_case(rec, hub, case_nprng(seed, "c17.siblings", 0, i), tier, "C17")
         if k % 4 == 0:
             rec.set_case(driver="c17.system", seed=seed, tier=tier, shard=shard, nshards=nshards, idx=i)
             dsm.c17_system_case(rec, hub, case_nprng(seed, "c17.system", 0, i), tier, i)
@@ -65,6 +68,9 @@ def replay(rec, hub, case):
         return
     if case["driver"] == "c17.usermodel":
         dsm.c17_user_model_case(rec, hub, case_nprng(case["seed"], "c17.usermodel", 0, case["idx"]), case.get("tier", "quick"))
+        return
+    if case["driver"] == "c17.siblings":
+        dsm.sibling_grids_case(rec, hub, case_nprng(case["seed"], "c17.siblings", 0, case["idx"]), case.get("tier", "quick"), "C17")
         return
     if case["driver"] == "c17.two":
         dsm.two_objects_case(rec, hub, case_nprng(case["seed"], "c17.two", 0, case["idx"]), case.get("tier", "quick"), dsm.M17, "C17")
